@@ -1276,7 +1276,7 @@ theorem pingOuts_ok (s : Node) (f : Entry → Entry) : ∀ o ∈ pingOuts (s.cir
   · rename_i hc
     cases hpo
     simp at hc
-    obtain ⟨e0, hm, hg⟩ := Tbl.mem_mapAll_live (i := p.1) (e := p.2) hp hc.1.1
+    obtain ⟨e0, hm, hg⟩ := Tbl.mem_mapAll_live (i := p.1) (e := p.2) hp hc.1
     refine Or.inr (Or.inr ?_)
     unfold Node.known
     simp [Tbl.get_isSome_of_mem hm hg]
